@@ -63,6 +63,12 @@ func (s *Segment) WriteTo(w io.Writer, _ chan struct{}) (int64, error) {
 	if err != nil {
 		return n, fmt.Errorf("error persisting segment: %w", err)
 	}
+	if n != int64(s.data.Len()) {
+		// a file-backed read that hits the end of the file early fails with
+		// io.EOF, which the copy loop takes for the regular end of the data
+		return n, fmt.Errorf("error persisting segment: %d of %d bytes: %w",
+			n, s.data.Len(), io.ErrUnexpectedEOF)
+	}
 
 	footer := *s.footer
 	footer.crc = cw.Sum32()
